@@ -43,8 +43,11 @@ def _via(fmt, value):
         w.write(r)
         w.flush()
         w.close()
-        with RecordReader(path) as rd:
-            back = [x.ts for x in rd]
+        try:
+            with RecordReader(path) as rd:
+                back = [x.ts for x in rd]
+        except Exception as e:
+            back = [f"reading back raised {type(e).__name__}: {e}"]
     return r.ts, back
 
 
@@ -116,12 +119,27 @@ def c13_text(text):
     return {"violates": not ok, "parsed": a.isoformat()}
 
 
-def c13_epoch(ep):
+def c13_epoch(ep, systz=None):
+    import time
+
     from flow.record.fieldtypes import datetime as FDT
 
-    a = FDT(ep)
+    saved = os.environ.get("TZ")
+    if systz:
+        os.environ["TZ"] = systz
+        time.tzset()
+    try:
+        a = FDT(ep)
+    finally:
+        if systz:
+            if saved is None:
+                os.environ.pop("TZ", None)
+            else:
+                os.environ["TZ"] = saved
+            time.tzset()
     ref = datetime.datetime.fromtimestamp(ep, UTC)
-    return {"violates": wall(a) != wall(ref), "parsed": a.isoformat()}
+    bad = wall(a) != wall(ref)
+    return {"violates": bad, "parsed": a.isoformat(), "detail": f"epoch {ep} with the system time zone {systz} became {a.isoformat()}, the instant is {ref.isoformat()}" if bad else None}
 
 
 def _stored_bytes(fmt, d):
